@@ -56,7 +56,9 @@ class CallGraph:
                     if s["k"] == "assign" and s["rv"]["k"] == "cast" and "Unsize" in s["rv"]["cast"] and "dyn std::ops::Fn" in s["rv"]["to"]:
                         if s["rv"]["fn_items"]:
                             dyn_targets.update(s["rv"]["fn_items"])
-                        else:
+                        elif "dyn " not in (s["rv"].get("from") or ""):
+                            # a generic / opaque callable is erased here (Box<F> -> Box<dyn FnOnce()>); a dyn -> dyn re-coercion
+                            # (lifetime or auto-trait change of an already erased task) is not a submit function
                             boxing_generic.add(fn.def_)
         for fn in F.fns.values():
             for bid, t in fn.calls():
